@@ -121,9 +121,11 @@ structure HooksOk (H : Hooks) (m : Nat) : Prop where
   chol : ∀ u w, WInv m w → WInv m (H.chol u w).1 ∧ (H.chol u w).2 = Val.chol u m
   symeig : ∀ w, WInv m w → WInv m (H.symeig w)
   svd : ∀ w, WInv m w → WInv m (H.svd w).1 ∧ (H.svd w).2 = Val.svd m
+  denseBody : ∀ w, WInv m w → WInv m (H.denseBody w)
   lroot : ∀ w, WInv m w → WInv m (H.lroot w).1 ∧ ∃ p t, (H.lroot w).2 = Val.root p t t m
   lrootInv : ∀ w, WInv m w → WInv m (H.lrootInv w).1 ∧ ∃ p, (H.lrootInv w).2 = Val.rootInv p m
-  rootOv : ∀ f, H.rootOv = some f → ∀ c w, WInv m w → WInv m (f c w).1 ∧ ∃ p t, (f c w).2 = Val.root p t t m
+  rootOv : ∀ f, H.rootOv = some f → ∀ c w, WInv m w → ∀ r, f c w = .inl r → WInv m r.1 ∧ ∃ p t, r.2 = Val.root p t t m
+  rootInvOv : ∀ f, H.rootInvOv = some f → ∀ c w, WInv m w → ∀ r, f c w = .inl r → WInv m r.1 ∧ ∃ p, r.2 = Val.rootInv p m
   iqlOv : ∀ f, H.iqlOv = some f → ∀ w, WInv m w → WInv m (f w).1 ∧ (f w).2 = Val.num true m
   sampleOv : ∀ f, H.sampleOv = some f → ∀ w, WInv m w → WInv m (f w).1 ∧ (f w).2 = Val.num true m
 
@@ -179,15 +181,15 @@ theorem wToDense_ok (w : WSt) (hw : WInv m w) :
     WInv m (wToDense H m w).1 ∧ (wToDense H m w).2 = Val.dense m := by
   unfold wToDense
   split
-  · have h := wgood_cached (k := denseKey) (f := fun w => (w, Val.dense m))
-      (fun w hw => ⟨hw, by simp [validFor, denseKey, Key.name]⟩) w hw
+  · have h := wgood_cached (k := denseKey) (f := fun w => (H.denseBody w, Val.dense m))
+      (fun w hw => ⟨hH.denseBody w hw, by simp [validFor, denseKey, Key.name]⟩) w hw
     exact ⟨h.1, valid_denseKey m h.2⟩
-  · exact ⟨hw, rfl⟩
+  · exact ⟨hH.denseBody w hw, rfl⟩
 
-theorem wgood_diagz (c : Call) : WGood m (diagzKey c) (wDiagonalization H σ n m c) := by
+theorem wgood_diagz' (c : Call) : WGood m (diagzKey (H.diagzRebind c)) (wDiagonalization H σ n m c) := by
   unfold wDiagonalization
   apply wgood_cached
-  have body : ∀ meth : String, WGood m (diagzKey c) (wDiagzBody H m meth) := by
+  have body : ∀ meth : String, WGood m (diagzKey (H.diagzRebind c)) (wDiagzBody H m meth) := by
     intro meth w hw
     unfold wDiagzBody
     split
@@ -195,6 +197,13 @@ theorem wgood_diagz (c : Call) : WGood m (diagzKey c) (wDiagonalization H σ n m
     · exact ⟨hH.symeig w hw, by simp [validFor, diagzKey, Key.name]⟩
   intro w hw
   exact body _ w hw
+
+/-- With a re-binding override the entry lives under the re-bound key; it is a valid answer for the call as made. -/
+theorem wgood_diagz (c : Call) : WGood m (diagzKey c) (wDiagonalization H σ n m c) := by
+  intro w hw
+  have h := wgood_diagz' hH σ n c w hw
+  obtain ⟨p, hp⟩ := valid_diagzKey h.2
+  exact ⟨h.1, by rw [hp]; simp [validFor, diagzKey, Key.name]⟩
 
 theorem wgood_svd : WGood m svdKey (wSvd H) := by
   unfold wSvd
@@ -226,13 +235,23 @@ theorem wgood_root (c : Call) : WGood m (rootKey c) (wRootDecomp H σ n m c) := 
   unfold wRootDecomp
   apply wgood_cached
   intro w hw
+  have base : ∀ c' : Call, ∀ k : Key, k.name = "root_decomposition" → WGood m k (wRootCompute H σ n m c') := by
+    intro c' k hk w hw
+    obtain ⟨h1, p, t, h2⟩ := wRootBody_ok hH σ n _ w hw
+    exact ⟨h1, by show validFor m k (wRootBody H σ n m _ w).2; rw [h2]; simp [validFor, hk]⟩
   cases hov : H.rootOv with
   | some f =>
-    obtain ⟨h1, p, t, h2⟩ := hH.rootOv f hov c w hw
-    exact ⟨h1, by rw [h2]; exact rootKey_valid m c p t⟩
-  | none =>
-    obtain ⟨h1, p, t, h2⟩ := wRootBody_ok hH σ n _ w hw
-    exact ⟨h1, by show validFor m (rootKey c) (wRootBody H σ n m _ w).2; rw [h2]; exact rootKey_valid m c p t⟩
+    simp only
+    cases hf : f c w with
+    | inl r =>
+      obtain ⟨h1, p, t, h2⟩ := hH.rootOv f hov c w hw r hf
+      exact ⟨h1, by rw [h2]; exact rootKey_valid m c p t⟩
+    | inr c' =>
+      simp only
+      have h := wgood_cached (base c' (rootKey c') rfl) w hw
+      obtain ⟨p, tri, triOk, hv, ht⟩ := valid_rootKey m h.2
+      exact ⟨h.1, by rw [hv]; simp [validFor, rootKey, Key.name]; exact ht⟩
+  | none => exact base c (rootKey c) rfl w hw
 
 theorem wRootInvBody_ok (c : Call) (meth : String) (w : WSt) (hw : WInv m w) :
     WInv m (wRootInvBody H σ n m meth w).1 ∧ validFor m (rootInvKey c) (wRootInvBody H σ n m meth w).2 := by
@@ -261,7 +280,71 @@ theorem wgood_rootInv (c : Call) : WGood m (rootInvKey c) (wRootInvDecomp H σ n
   unfold wRootInvDecomp
   apply wgood_cached
   intro w hw
-  exact wRootInvBody_ok hH σ n c _ w hw
+  cases hov : H.rootInvOv with
+  | some f =>
+    simp only
+    cases hf : f c w with
+    | inl r =>
+      obtain ⟨h1, p, h2⟩ := hH.rootInvOv f hov c w hw r hf
+      exact ⟨h1, by rw [h2]; exact rootInvKey_valid m c p⟩
+    | inr c' =>
+      simp only
+      have h := wgood_cached (k := rootInvKey c') (f := wRootInvCompute H σ n m c')
+        (fun w hw => wRootInvBody_ok hH σ n c' _ w hw) w hw
+      refine ⟨h.1, ?_⟩
+      have hv := h.2
+      generalize (wCached (rootInvKey c') (wRootInvCompute H σ n m c') w).2 = v at hv
+      cases v <;> simp [validFor, rootInvKey, Key.name] at hv
+      simp [validFor, rootInvKey, Key.name, hv]
+  | none => exact wRootInvBody_ok hH σ n c _ w hw
+
+theorem wIqlBase_ok (w : WSt) (hw : WInv m w) :
+    WInv m (wIqlBase H σ n m w).1 ∧ (wIqlBase H σ n m w).2 = Val.num true m := by
+  unfold wIqlBase
+  cases hov : H.iqlOv with
+  | some f =>
+    have := hH.iqlOv f hov w hw
+    exact ⟨this.1, by simp only; rw [this.2]⟩
+  | none =>
+    simp only
+    split
+    · split
+      · have h := wgood_root hH σ n .noargs w hw
+        obtain ⟨p, tri, triOk, hv, ht⟩ := valid_rootKey m h.2
+        simp only [hv]
+        cases tri with
+        | true => simp [ht rfl]; exact h.1
+        | false =>
+          have h2 := wCholesky_ok hH false _ h.1
+          exact ⟨h2.1, by simp [h2.2, valMat]⟩
+      · have h2 := wCholesky_ok hH false w hw
+        exact ⟨h2.1, by simp [h2.2, valMat]⟩
+    · exact ⟨hw, rfl⟩
+
+theorem wLogdetDiagz_ok (w : WSt) (hw : WInv m w) :
+    WInv m (wLogdetDiagz H σ n m w).1 ∧ (wLogdetDiagz H σ n m w).2 = Val.num true m := by
+  unfold wLogdetDiagz
+  have h := wgood_diagz hH σ n .noargs w hw
+  obtain ⟨p, hp⟩ := valid_diagzKey h.2
+  exact ⟨h.1, by simp [hp, valMat]⟩
+
+theorem wIql_ok (w : WSt) (hw : WInv m w) :
+    WInv m (wIql H σ n m w).1 ∧ answerOk m .iql (wIql H σ n m w).2 := by
+  unfold wIql
+  split
+  · have h := wIqlBase_ok hH σ n w hw
+    have h2 := wLogdetDiagz_ok hH σ n _ h.1
+    exact ⟨h2.1, by simp [h.2, h2.2, valOk, answerOk]⟩
+  · have h := wIqlBase_ok hH σ n w hw
+    exact ⟨h.1, by rw [h.2]; simp [answerOk]⟩
+
+theorem wLogdet_ok (w : WSt) (hw : WInv m w) :
+    WInv m (wLogdet H σ n m w).1 ∧ answerOk m .iql (wLogdet H σ n m w).2 := by
+  unfold wLogdet
+  split
+  · have h := wLogdetDiagz_ok hH σ n w hw
+    exact ⟨h.1, by rw [h.2]; simp [answerOk]⟩
+  · exact wIql_ok hH σ n w hw
 
 /-- **One step of the generic wrapper logic on the wrapper itself.** -/
 theorem wRunSelf_ok (q : Query) (w : WSt) (hw : WInv m w) :
@@ -299,28 +382,7 @@ theorem wRunSelf_ok (q : Query) (w : WSt) (hw : WInv m w) :
     unfold wEigh
     rw [symeig_absent m w.self.cache hw.1]
     exact ⟨hH.symeig w hw, by simp [answerOk]⟩
-  | iql =>
-    show WInv m (wIql H σ n m w).1 ∧ answerOk m .iql (wIql H σ n m w).2
-    unfold wIql
-    cases hov : H.iqlOv with
-    | some f =>
-      have := hH.iqlOv f hov w hw
-      exact ⟨this.1, by simp only; rw [this.2]; simp [answerOk]⟩
-    | none =>
-      simp only
-      split
-      · split
-        · have h := wgood_root hH σ n .noargs w hw
-          obtain ⟨p, tri, triOk, hv, ht⟩ := valid_rootKey m h.2
-          simp only [hv]
-          cases tri with
-          | true => simp [answerOk, ht rfl]; exact h.1
-          | false =>
-            have h2 := wCholesky_ok hH false _ h.1
-            exact ⟨h2.1, by simp [h2.2, valMat, answerOk]⟩
-        · have h2 := wCholesky_ok hH false w hw
-          exact ⟨h2.1, by simp [h2.2, valMat, answerOk]⟩
-      · exact ⟨hw, by simp [answerOk]⟩
+  | iql => exact wIql_ok hH σ n w hw
   | sample =>
     show WInv m (wSample H σ n m w).1 ∧ answerOk m .sample (wSample H σ n m w).2
     unfold wSample
@@ -362,6 +424,7 @@ theorem wRun_ok (q : WQuery) (w : WSt) (hw : WInv m w) :
         simp only
         rw [← hj]
         exact (runQuery_ok o.P σ o.n o.m q o.st (hw.2 o hmem)).2
+  | logdet => exact wLogdet_ok hH σ n w hw
 
 end
 
@@ -381,9 +444,11 @@ theorem hooksOk_delegating (σ : Settings) (m : Nat) (b e : Bool) : HooksOk (Hoo
       have h := subsQuery_ok σ .svd hw
       exact ⟨h.1, by simp [Hooks.delegating, h.2]⟩
     | true => exact ⟨WInv.putSelf hw (by simp [validFor, denseKey, Key.name]), rfl⟩
+  denseBody w hw := hw
   lroot w hw := ⟨WInv.bump (subsLanczosRoot_ok hw), _, false, rfl⟩
   lrootInv w hw := ⟨WInv.bump (subsLanczosRootInv_ok σ hw), _, rfl⟩
   rootOv f hf := by simp [Hooks.delegating] at hf
+  rootInvOv f hf := by simp [Hooks.delegating] at hf
   iqlOv f hf w hw := by
     simp only [Hooks.delegating, Option.some.injEq] at hf
     subst hf
@@ -402,23 +467,122 @@ theorem hooksOk_constMul (σ : Settings) (m : Nat) : HooksOk (Hooks.constMul σ 
   chol u w hw := ⟨hw, rfl⟩
   symeig w hw := WInv.putSelf hw (by simp [validFor, denseKey, Key.name])
   svd w hw := ⟨WInv.putSelf hw (by simp [validFor, denseKey, Key.name]), rfl⟩
+  denseBody w hw := hw
   lroot w hw := ⟨WInv.bump hw, _, false, rfl⟩
   lrootInv w hw := ⟨WInv.bump (WInv.putSelf hw (rootKey_valid m .noargs _ false)), _, rfl⟩
-  rootOv f hf c w hw := by
+  rootOv f hf c w hw r hr := by
     simp only [Hooks.constMul, Option.some.injEq] at hf
     subst hf
     have h := subsQuery_ok σ (.root (kwMethod c)) hw
+    simp only [Sum.inl.injEq] at hr
+    subst hr
     refine ⟨h.1, ?_⟩
     simp only [h.2, if_true]
     exact ⟨_, false, rfl⟩
+  rootInvOv f hf := by simp [Hooks.constMul] at hf
   iqlOv f hf := by simp [Hooks.constMul] at hf
   sampleOv f hf := by simp [Hooks.constMul] at hf
 
-theorem hooksOk_kind (k : WKind) (σ : Settings) (m : Nat) : HooksOk (k.hooks σ m) m := by
+/-- **KroneckerProductLinearOperator meets the contract** — for any number of factors of any modelled class, any size, any settings. -/
+theorem hooksOk_kron (σ : Settings) (n m : Nat) : HooksOk (Hooks.kron σ n m) m where
+  chol u w hw := by
+    have h := subsQuery_ok σ (.cholesky u) hw
+    exact ⟨h.1, by simp [Hooks.kron, h.2]⟩
+  symeig w hw := subsSymeig_ok hw
+  svd w hw := by
+    have h := subsQuery_ok σ .svd hw
+    exact ⟨h.1, by simp [Hooks.kron, h.2]⟩
+  denseBody w hw := hw
+  lroot w hw := ⟨WInv.bump hw, _, false, rfl⟩
+  lrootInv w hw := ⟨WInv.bump (WInv.putSelf hw (rootKey_valid m .noargs _ false)), _, rfl⟩
+  rootOv f hf c w hw r hr := by
+    simp only [Hooks.kron, Option.some.injEq] at hf
+    subst hf
+    by_cases hn : n ≤ σ.mcs
+    · simp [hn] at hr
+    · simp only [hn, if_false, Sum.inl.injEq] at hr
+      subst hr
+      have h := subsQuery_ok σ (.root (kwMethod c)) hw
+      refine ⟨h.1, ?_⟩
+      simp only [h.2, if_true]
+      exact ⟨_, false, rfl⟩
+  rootInvOv f hf c w hw r hr := by
+    simp only [Hooks.kron, Option.some.injEq] at hf
+    subst hf
+    by_cases hn : n ≤ σ.mcs
+    · simp [hn] at hr
+    · simp only [hn, if_false, Sum.inl.injEq] at hr
+      subst hr
+      have h := subsQuery_ok σ (.rootInv (kwMethod2 c)) hw
+      refine ⟨h.1, ?_⟩
+      simp only [h.2, if_true]
+      exact ⟨_, rfl⟩
+  iqlOv f hf := by simp [Hooks.kron] at hf
+  sampleOv f hf := by simp [Hooks.kron] at hf
+
+theorem sumDense_ok (σ : Settings) {m : Nat} {w : WSt} (hw : WInv m w) : WInv m (sumDense σ m w) := by
+  unfold sumDense
+  split
+  · exact hw
+  · exact WInv.putSelf (subsQuery_ok σ .toDense hw).1 (by simp [validFor, denseKey, Key.name])
+
+theorem firstQuery_ok (σ : Settings) (q : Query) {m : Nat} {w : WSt} (hw : WInv m w) :
+    WInv m (firstQuery σ q w).1 ∧ (firstQuery σ q w).2 = true := by
+  unfold firstQuery
+  cases hs : w.subs with
+  | nil => exact ⟨hw, rfl⟩
+  | cons o t =>
+    have ho : Inv o.m o.st.cache := hw.2 o (by rw [hs]; exact List.mem_cons_self)
+    have h := runQuery_ok o.P σ o.n o.m q o.st ho
+    refine ⟨⟨hw.1, ?_⟩, by simp [h.2]⟩
+    intro o' ho'
+    simp only [List.mem_cons] at ho'
+    rcases ho' with rfl | ht
+    · exact h.1
+    · exact hw.2 o' (by rw [hs]; exact List.mem_cons_of_mem _ ht)
+
+theorem firstSymeig_ok {m : Nat} {w : WSt} (hw : WInv m w) : WInv m (firstSymeig w) := by
+  unfold firstSymeig
+  cases hs : w.subs with
+  | nil => exact hw
+  | cons o t =>
+    have ho : Inv o.m o.st.cache := hw.2 o (by rw [hs]; exact List.mem_cons_self)
+    refine ⟨hw.1, ?_⟩
+    intro o' ho'
+    simp only [List.mem_cons] at ho'
+    rcases ho' with rfl | ht
+    · exact symeigRun_ok o.P o.m o.st ho
+    · exact hw.2 o' (by rw [hs]; exact List.mem_cons_of_mem _ ht)
+
+/-- **AddedDiagLinearOperator meets the contract** (general and constant diagonal part). -/
+theorem hooksOk_addedDiag (σ : Settings) (m : Nat) (cd : Bool) : HooksOk (Hooks.addedDiag σ m cd) m where
+  chol u w hw := ⟨hw, rfl⟩
+  symeig w hw := by
+    cases cd with
+    | true => exact firstSymeig_ok hw
+    | false => exact sumDense_ok σ hw
+  svd w hw := by
+    cases cd with
+    | true =>
+      have h := firstQuery_ok σ .svd hw
+      exact ⟨h.1, by simp [Hooks.addedDiag, h.2]⟩
+    | false => exact ⟨sumDense_ok σ hw, rfl⟩
+  denseBody w hw := (subsQuery_ok σ .toDense hw).1
+  lroot w hw := ⟨WInv.bump hw, _, false, rfl⟩
+  lrootInv w hw := ⟨WInv.bump (WInv.putSelf hw (rootKey_valid m .noargs _ false)), _, rfl⟩
+  rootOv f hf := by simp [Hooks.addedDiag] at hf
+  rootInvOv f hf := by simp [Hooks.addedDiag] at hf
+  iqlOv f hf := by simp [Hooks.addedDiag] at hf
+  sampleOv f hf := by simp [Hooks.addedDiag] at hf
+
+theorem hooksOk_kind (k : WKind) (σ : Settings) (n m : Nat) : HooksOk (k.hooks σ n m) m := by
   cases k
   · exact hooksOk_delegating σ m false false
   · exact hooksOk_delegating σ m true false
   · exact hooksOk_constMul σ m
   · exact hooksOk_delegating σ m true true
+  · exact hooksOk_kron σ n m
+  · exact hooksOk_addedDiag σ m false
+  · exact hooksOk_addedDiag σ m true
 
 end LinOp.C12
